@@ -531,3 +531,19 @@ def nil_is_null(rep, fb, rule='R16.16'):
             p_['k'] in ('CXXOperatorCallExpr', 'BinaryOperator') and p_.get('op') == '=' and any(z['k'] == 'MemberExpr' and z.get('ref', {}).get('name') == 'atom' for z in sub(p_['c'][-2])) for p_ in gld.ancestors(y))]
         bad = [w for w in words if w not in ('null', 'true', 'false')]
         rep.check(not bad, rule, 'getLuaAsData|nil', locstr(a), 'nil becomes %s' % ('the empty Data / a JSON literal' if not bad else 'the atom `%s`, which is no JSON literal: toJSON writes it bare, fromJSON reads it back as the string "%s"' % (bad[0], bad[0])))
+
+
+def bare_words(rep, fb, rule):
+    """what getLuaAsData writes into an INTERPRETED atom ends up bare in the state string: words that are no JSON literal come back as text
+    (C14 R14.12, second instance)"""
+    gld = next((f_ for f_ in fb.funcs.values() if f_.q.endswith('getLuaAsData')), None)
+    if gld is None:
+        raise AnalysisBroken('getLuaAsData not found')
+    words = []
+    for n in gld.walk():
+        if n['k'] in ('CXXOperatorCallExpr', 'BinaryOperator') and n.get('op') == '=' and any(z['k'] == 'MemberExpr' and z.get('ref', {}).get('name') == 'atom' for z in sub(n['c'][-2])):
+            for y in sub(n['c'][-1]):
+                if y['k'] == 'StringLiteral' and isinstance(y.get('str'), str) and y['str'] not in ('true', 'false', 'null') and re.search(r'[A-Za-z(]', y['str']):
+                    words.append((y['str'], n))
+    rep.check(not words, rule, 'getLuaAsData|bare words', locstr(words[0][1]) if words else gld.where(), 'interpreted atoms written for Lua values %s' % (
+        'are JSON literals or numerals' if not words else 'include the words %s, which toJSON writes bare and fromJSON reads back as text: a non-finite number resumes as a string' % sorted({w for w, _ in words})))
